@@ -13,6 +13,7 @@ GROUPS_IOS = {
     "G3": ["host 10.0.0.1"],
     "GNC": ["10.0.0.0 0.0.1.3"],
     "GD": ["10.1.0.0 0.0.0.255"],
+    "GGAP": ["10.2.0.0 0.0.0.3", "10.2.0.252 0.0.0.3"],
     "EMPTY": [],
 }
 GROUPS_NXOS = {
@@ -21,6 +22,7 @@ GROUPS_NXOS = {
     "G3": ["10.0.0.1/32"],
     "GNC": ["10.0.0.0 0.0.1.3"],
     "GD": ["10.1.0.0/24"],
+    "GGAP": ["10.2.0.0/30", "10.2.0.252/30"],
     "EMPTY": [],
 }
 
@@ -41,6 +43,10 @@ ACES_IOS = [
     "permit tcp any any syn fin", "permit tcp any any fin", "permit tcp any any ack syn fin", "permit 200 any any", "permit 201 any any", "permit 4 any any",
     "permit ipip any any", "permit udp any any", "permit 17 any any eq 53",
     "permit ip object-group G3 object-group GD", "permit ip host 10.0.0.1 host 10.0.0.1", "permit ip host 10.0.0.1 10.1.0.0 0.0.0.255", "permit ip object-group G1 object-group G2",
+    # a group whose members leave a gap, and a network that starts in one member and ends in the other
+    "permit ip object-group GGAP any", "permit ip 10.2.0.0 0.0.0.255 any", "permit ip 10.2.0.0 0.0.0.3 any",
+    # wildcards with many non-contiguous bits and a lowest mask bit of 0 (256 networks), hosts inside and outside them
+    "permit ip 10.0.0.1 0.0.255.0 any", "permit ip host 10.0.5.1 any", "permit ip host 10.0.5.2 any", "permit ip 10.0.0.0 0.0.4.0 any",
     "permit ip 10.0.0.0 128.0.0.255 any", "permit ip 138.0.0.0 0.0.0.255 any", "permit ip 10.0.0.0 0.0.1.0 any", "permit ip 10.0.1.0 0.0.0.0 any",
 ]
 
@@ -48,7 +54,8 @@ ACES_IOS = [
 def to_nxos(line):
     rep = {"host 10.0.0.1": "10.0.0.1/32", "10.0.0.0 0.0.0.255": "10.0.0.0/24", "10.0.0.0 0.0.1.255": "10.0.0.0/23",
            "10.0.1.0 0.0.0.3": "10.0.1.0/30", "10.0.0.0 0.0.0.3": "10.0.0.0/30", "object-group": "addrgroup", "eq 80 443": "eq 443", "permit ipip": "permit 94", "138.0.0.0 0.0.0.255": "138.0.0.0/24",
-           "10.0.1.0 0.0.0.0": "10.0.1.0/32", "10.1.0.0 0.0.0.255": "10.1.0.0/24"}
+           "10.0.1.0 0.0.0.0": "10.0.1.0/32", "10.1.0.0 0.0.0.255": "10.1.0.0/24",
+           "10.2.0.0 0.0.0.255": "10.2.0.0/24", "10.2.0.0 0.0.0.3": "10.2.0.0/30", "host 10.0.5.1": "10.0.5.1/32", "host 10.0.5.2": "10.0.5.2/32"}
     for a, b in rep.items():
         line = line.replace(a, b)
     return line
